@@ -6,6 +6,8 @@ import DateutilVerif.Proofs.RRuleStrText
 namespace RRuleStr
 open ICal (isSpace upper splitOnChar pyInt rstrip strip isDigit splitLines)
 
+variable {po : ParseOpts}
+
 /-- the only exception kind a computation can end in is ValueError -/
 def OnlyVE {α : Type} (r : Py.R α) : Prop := ∀ e, r = .error e → e = .ValueError
 
@@ -32,7 +34,7 @@ theorem onlyVE_mapM {α β : Type} {f : α → Py.R β} (hf : ∀ a, OnlyVE (f a
     rw [List.mapM_cons]
     exact onlyVE_bind (hf a) (fun b => onlyVE_bind (onlyVE_mapM hf l) (fun bs => onlyVE_pure _))
 
-theorem stepPair_onlyVE (a : RArgs) (pair : List Char) : OnlyVE (stepPair a pair) := by
+theorem stepPair_onlyVE (a : RArgs) (pair : List Char) : OnlyVE (stepPair po a pair) := by
   unfold stepPair
   split
   · split
@@ -50,7 +52,7 @@ theorem lineValue_onlyVE (line : List Char) : OnlyVE (lineValue line) := by
     · exact onlyVE_ve
   · exact onlyVE_ok _
 
-theorem parseRRuleLine_onlyVE (line : List Char) : OnlyVE (parseRRuleLine line) :=
+theorem parseRRuleLine_onlyVE (line : List Char) : OnlyVE (parseRRuleLine po line) :=
   onlyVE_bind (lineValue_onlyVE line) (fun _ => onlyVE_foldlM stepPair_onlyVE _ _)
 
 theorem needFreq_onlyVE (a : RArgs) : OnlyVE (needFreq a) := by
@@ -58,13 +60,13 @@ theorem needFreq_onlyVE (a : RArgs) : OnlyVE (needFreq a) := by
   · exact onlyVE_ve
   · exact onlyVE_ok _
 
-theorem ruleOf_onlyVE (v : List Char) : OnlyVE (ruleOf v) :=
+theorem ruleOf_onlyVE (v : List Char) : OnlyVE (ruleOf po v) :=
   onlyVE_bind (parseRRuleLine_onlyVE v) needFreq_onlyVE
 
-theorem buildRule_onlyVE (v : List Char) (dt : Option (List Char × List (List Char))) : OnlyVE (buildRule v dt) :=
+theorem buildRule_onlyVE (v : List Char) (dt : Option DateV) (cache : Bool) : OnlyVE (buildRule po v dt cache) :=
   onlyVE_bind (ruleOf_onlyVE v) (fun _ => onlyVE_ok _)
 
-theorem buildSet_onlyVE (acc : Acc) (c kw : Bool) : OnlyVE (buildSet acc c kw) :=
+theorem buildSet_onlyVE (acc : Acc) (c kw cache : Bool) : OnlyVE (buildSet po acc c kw cache) :=
   onlyVE_bind (onlyVE_mapM ruleOf_onlyVE _) (fun _ => onlyVE_bind (onlyVE_mapM ruleOf_onlyVE _) (fun _ => onlyVE_ok _))
 
 theorem dateParmsOk_onlyVE (parms : List (List Char)) : OnlyVE (dateParmsOk parms) := by
@@ -76,7 +78,7 @@ theorem dateParmsOk_onlyVE (parms : List (List Char)) : OnlyVE (dateParmsOk parm
     · exact onlyVE_ve
     · exact onlyVE_ok _
 
-theorem stepLine_onlyVE (acc : Acc) (line : List Char) : OnlyVE (stepLine acc line) := by
+theorem stepLine_onlyVE (acc : Acc) (line : List Char) : OnlyVE (stepLine po acc line) := by
   unfold stepLine
   split
   · exact onlyVE_ok _
@@ -91,15 +93,15 @@ theorem stepLine_onlyVE (acc : Acc) (line : List Char) : OnlyVE (stepLine acc li
       | exact onlyVE_ve
       | (split <;> first | exact onlyVE_ok _ | exact onlyVE_ve)
 
-theorem parseLines_onlyVE (s : List Char) (lines : List (List Char)) (f c kw : Bool) : OnlyVE (parseLines s lines f c kw) := by
+theorem parseLines_onlyVE (s : List Char) (lines : List (List Char)) (f c kw cache : Bool) : OnlyVE (parseLines po cache s lines f c kw) := by
   unfold parseLines
   split
-  · exact buildRule_onlyVE _ _
+  · exact buildRule_onlyVE _ _ _
   · refine onlyVE_bind (onlyVE_foldlM stepLine_onlyVE _ _) (fun acc => ?_)
     split
-    · exact buildSet_onlyVE _ _ _
+    · exact buildSet_onlyVE _ _ _ _
     · split
-      · exact buildRule_onlyVE _ _
+      · exact buildRule_onlyVE _ _ _
       · exact onlyVE_ve
 
 /-- every failure of the model of `rrulestr` is a ValueError — unknown and malformed parts, unsupported
@@ -109,6 +111,6 @@ theorem parseRfc_onlyVE (s : List Char) (o : Opts) (kw : Bool) : OnlyVE (parseRf
   simp only []
   split
   · exact onlyVE_ve
-  · exact parseLines_onlyVE _ _ _ _ _
+  · exact parseLines_onlyVE _ _ _ _ _ _
 
 end RRuleStr
